@@ -61,11 +61,18 @@ def _profile_functions(fn, eng, prefix):
     return sib, seen
 
 
+STOP_FLAGS = None      # shared byte array (one flag per job), inherited by the forked workers
+
+
 def worker_task(task):
     pid, job_idx, params, prefixes, budget_s, known_ids, want_profile = task
-    from symex.engine import SymEngine, Inconclusive
+    from symex.engine import SymEngine, Inconclusive, Stats
     from symex.symnum import SymNum
     t0 = time.perf_counter()
+    if STOP_FLAGS is not None and STOP_FLAGS[job_idx]:
+        # the job was stopped (bug-hunting budget used up, or enough counterexamples): queued subtrees are dropped
+        return {"job": job_idx, "stats": Stats().as_dict(), "findings": [], "n_findings": 0, "known": [], "n_known": 0,
+                "samples": [], "leftover": [], "functions": [], "smt": [], "wall": 0.0, "error": None, "dropped": True}
     try:
         h = load_harness(pid)
         eng = SymEngine()
@@ -258,6 +265,8 @@ def run_check(pid, tier, seed=0, workers=None, only_job=None):
         pj["stats"] = Stats()
     errors = []
     ctx = mp.get_context("fork")
+    global STOP_FLAGS
+    STOP_FLAGS = ctx.RawArray("b", max(1, len(jobs)))
     pending = [0]
     results = []
     order = list(range(len(jobs)))
@@ -315,9 +324,13 @@ def run_check(pid, tier, seed=0, workers=None, only_job=None):
                 if pj["n_findings"] >= 5:
                     # enough counterexamples for this job: do not explore its remaining subtrees
                     pj["truncated_after_violation"] = True
+                    STOP_FLAGS[j] = 1
                     left = []
+                if res.get("dropped"):
+                    pj["hunt_stopped"] = pj.get("hunt_stopped") or bool(jobs[j].get("hunt_cpu_s"))
                 if left and jobs[j].get("hunt_cpu_s") and pj["wall"] >= jobs[j]["hunt_cpu_s"]:
                     pj["hunt_stopped"] = True
+                    STOP_FLAGS[j] = 1
                     left = []
                 if left:
                     n_chunks = min(len(left), max(1, 2 * workers))
